@@ -61,10 +61,24 @@ CHECKS["C18"] = dict(
          "MPLCONFIGDIR cache allowlisted.",
     design_ref="5/C18", engine="Workspace")
 
+CHECKS["C03"] = dict(
+    category="model_checking",
+    technique="TLA+ trace specification (FlattenTrace) walked by TLC over the GIR rows emitted by real `lang` runs on corpora and deterministic byte-level mutants in 7 languages",
+    text="Every unit emitted by the real language phase is a trace: FlattenTrace keeps the block stack, the last statement per nesting "
+         "level with the blocks it names, the ids seen and the id ranges of finished units, and judges each row (unique ids, disjoint unit "
+         "ranges, balanced and properly nested blocks, parents, body attributes naming exactly their own blocks, no executable statement "
+         "outside a method, one ordered unit initialiser) and the way the phase ended (no unhandled exception).",
+    note="Universe: repository corpora (python, javascript, typescript, java, go, c, php) and a fixed family of mutants (quick: corpus + seeded "
+         "sample of 60 mutants per language; thorough: ~30k files); invalid UTF-8 excluded; body-valued attributes recognised by ownership; "
+         "nine crash sites on malformed input are listed known findings with witnesses.",
+    design_ref="5/C03", engine="FlattenTrace")
+
 NOT_YET = {
 }
 
 ENGINES = [
+    dict(name="FlattenTrace", path="specs/FlattenTrace.tla harness/c03.py harness/corpus.py harness/lianrun.py",
+         serves_properties=["C03"], kind_free_text="TLA+ trace spec over emitted GIR rows, TLC"),
     dict(name="Workspace", path="specs/Workspace.tla specs/WorkspaceTrace.tla harness/c18.py",
          serves_properties=["C18"], kind_free_text="TLA+ design model + trace spec over strace events, TLC"),
     dict(name="Loader", path="specs/Loader.tla specs/LoaderImpl.tla specs/LoaderTrace.tla harness/c15.py harness/drive_c15.py",
